@@ -1,4 +1,5 @@
 import OASModel.Scalar
 import OASModel.Vec3
 import OASModel.Transfer
+import OASModel.StructLoads
 import OASModel.Dual
